@@ -51,17 +51,25 @@ def run(ctx):
         ctx.model_check(dv, workers=4, expect_violation="RenameMovesSubtree", label="rename-drops-link breaks RenameMovesSubtree (entries arrive unchanged) at design level")
         mc = ctx.instance("MC_FilerNS_C21", "FilerNS", fc.cfg_text("FilerNS_c21.cfg"), fc.consts(MIX, [1], [1], 3))
         ctx.model_check(mc, workers=4, timeout=1500)
+        # change-then-revert at model level: every (state, last op) of create / link / write to depth 4
+        gr = ctx.instance("G2R_FilerNS_C21", "FilerNS", fc.cfg_text("FilerNS_c21.cfg", "VIEW ViewMC", "INVARIANT EmitW"),
+                          fc.consts(["create", "link", "write"], [1], [1, 2], 4))
+        hists += fc.sample_pref(rng, fc.mc_and_generate(ctx, gr, timeout=1500), 800,
+                                fc.link_then(("write",)), 0.9)
         g3 = ctx.instance("G3_FilerNS_C21", "FilerNS", "SPECIFICATION Spec\nINVARIANT Emit\nCHECK_DEADLOCK FALSE",
                           fc.consts(MIX + ["mkdir", "update"], [1, 2, 3], [1, 2, 3], 10, links=3))
         hists += ctx.generate(g3, simulate=200, depth=11)
     hists = [fc.observers(rng, fc.PATHS, [fc.norm_op(op, rng) for op in h], 0.15) for h in hists]
-    hists += fc.random_scripts(rng, 400 if ctx.thorough else 80, 12, WEIGHTS)
+    hists += fc.random_scripts(rng, 400 if ctx.thorough else 70, 12, WEIGHTS)
+    # G4b: change-then-revert through different names of one link (values repeat)
+    hists += fc.revert_scripts(rng, 300 if ctx.thorough else 40)
     hists = fc.finding_scripts("C21") + hists
     fc.drive_and_judge(ctx, hists, nontrivial, mutate, ["C21"])
     ctx.rule = ("executions = one TLC witness history per (namespace state incl. link records, last operation) to depth %d "
                 "over 5 paths x 2 link ids that contains a link (sampled in the quick tier; thorough adds random walks of "
                 "length 10) + seeded random input scripts of length 12 (link / write through any name / rename / "
-                "overwrite / delete); after every call: recursive ListEntries snapshot (content, attributes, link id and "
+                "overwrite / delete; writes repeat earlier values) + change-then-revert scripts (two or three names of "
+                "one link, writes from a pool of 2-3 values through any name); after every call: recursive ListEntries snapshot (content, attributes, link id and "
                 "counter shown by every name), LookupDirectoryEntry on sampled names, KvGet of every link record; "
                 "non-trivial = a successful link followed by a successful write, rename, delete or overwrite" % depth)
     ctx.exhaustive = True
